@@ -4,6 +4,6 @@ setup: coq
 	@for p in $$(ls harness | grep '^c[0-9]'); do \
 	  python3 bin/warm $$p || true; done
 coq:
-	cd coq && coq_makefile -f _CoqProject theories/*.v -o Makefile && timeout 3000 $(MAKE) -k -j16
+	cd coq && coq_makefile -f _CoqProject theories/*.v -o Makefile && timeout 3000 $(MAKE) -k -j16 || echo "coq build incomplete (each check re-runs make and reports its own obligations)"
 clean:
 	rm -rf build; cd coq && rm -f Makefile Makefile.conf .Makefile.d theories/*.vo theories/*.vok theories/*.vos theories/*.glob theories/.*.aux
